@@ -116,11 +116,10 @@ UNIT = Unit(
                          (re.compile(r"self\.results\.record_"), "self.record_", "*"), ("&self.hir_table", "self.hir_table_ref()", "*"), ("expected_ret.as_ref()", "&**expected_ret", "*"),
                          ("let mut params_tast = Vec::new();", "let mut params_tast: Vec<ClosureParam> = Vec::new();", 1), ("let mut param_tys = Vec::new();", "let mut param_tys: Vec<Ty> = Vec::new();", 1)],
            rewrites=[VC, PUSHED],
-           obligation="closure against an expected function type: parameters take the expected types (an annotation is equated with it), the body is checked against the expected result",
+           obligation="closure against an expected type: its type is built from its parameters' types (the annotation's where one is written), in order, and its body's type — whatever is done with the expected type",
            contract="ensures check_closure_ok(params@, body, *expected, r, final(self).recorded()),",
-           loop_fn=lambda k, header, kw: (lambda mt: (f"invariant {mt.group(1)} <= params.len(), {mt.group(1)} <= expected_params.len(), params_tast@.len() == {mt.group(1)}, param_tys@.len() == {mt.group(1)},\n"
-               f"  forall|j: int| 0 <= j < {mt.group(1)} ==> (#[trigger] param_tys@[j]) == params_tast@[j].ty && (match params@[j].ty {{ Some(h) => annot_ty(h, param_tys@[j]) && "
-               f"self.recorded().contains(Constraint::TypeEqual(param_tys@[j], expected_params@[j])), None => param_tys@[j] == expected_params@[j] }}),\n decreases params.len() - {mt.group(1)},") if mt else None)(
+           loop_fn=lambda k, header, kw: (lambda mt: (f"invariant {mt.group(1)} <= params.len(), params_tast@.len() == {mt.group(1)}, param_tys@.len() == {mt.group(1)},\n"
+               f"  forall|j: int| 0 <= j < {mt.group(1)} ==> (#[trigger] param_tys@[j]) == params_tast@[j].ty && (params@[j].ty matches Some(h) ==> annot_ty(h, param_tys@[j])),\n decreases params.len() - {mt.group(1)},") if mt else None)(
                re.search(r"while\s+(__zk\d+)\s*<\s*params\.len\(\)", header))),
         # ---- blocks: the wrappers open the scope (C05 clause: top_fresh is the precondition of the walkers), the walkers type the block
         whole("infer_block_expr", "ensures block_ok(exprs@, r, None),", "block: empty = unit; otherwise its expressions are elaborated in a scope opened for this block",
@@ -131,7 +130,7 @@ UNIT = Unit(
               sigfix=[("exprs: &[ExprId]", "exprs: &Vec<ExprId>", 1), ("let mut tast_exprs = Vec::new();", "let mut tast_exprs: Vec<Expr> = Vec::new();", 1),
                       (re.compile(r"tast_exprs\s*\.(last|first)\(\)\s*\.map\(\|e\| e\.get_ty\(\)\)\s*\.unwrap_or\(Ty::TUnit\)"), r"\1_ty(&tast_exprs)", 1)],
               loop_fn=lambda k, header, kw: (lambda mt: (f"invariant {mt.group(1)} <= exprs.len(), tast_exprs@.len() == {mt.group(1)},\n"
-                  f"  forall|j: int| 0 <= j < {mt.group(1)} ==> inferred(#[trigger] exprs@[j], tast_exprs@[j]),\n decreases exprs.len() - {mt.group(1)},") if mt else None)(
+                  f"  forall|j: int| 0 <= j < {mt.group(1)} ==> elaborated(#[trigger] exprs@[j], tast_exprs@[j]),\n decreases exprs.len() - {mt.group(1)},") if mt else None)(
                   re.search(r"while\s+(__fk\d+)\s*<\s*exprs\.len\(\)", header))),
         Fn(file=C, name="check_block_exprs", container="Typer", ret="r", attrs="#[verifier::loop_isolation(false)]",
            pre_rewrites=[("exprs: &[hir::ExprId]", "exprs: &Vec<ExprId>", 1), ("let mut tast_exprs = Vec::new();", "let mut tast_exprs: Vec<Expr> = Vec::new();", 1),
@@ -141,8 +140,7 @@ UNIT = Unit(
            obligation="block in checking mode: all but the last expression inferred, the last one checked against the expected type; the type is the last one's",
            contract="requires old(local_env).top_fresh(),\nensures block_ok(exprs@, r, Some(*expected)),",
            loop_fn=lambda k, header, kw: (lambda mt: (f"invariant {mt.group(1)} <= exprs.len(), tast_exprs@.len() == {mt.group(1)}, __en == {mt.group(1)}, len == exprs.len(), len > 0,\n"
-               f"  forall|j: int| 0 <= j < {mt.group(1)} && j < exprs.len() - 1 ==> inferred(#[trigger] exprs@[j], tast_exprs@[j]),\n"
-               f"  {mt.group(1)} == exprs.len() ==> checked_as(exprs@[exprs.len() - 1], *expected, tast_exprs@[exprs.len() - 1]),\n decreases exprs.len() - {mt.group(1)},") if mt else None)(
+               f"  forall|j: int| 0 <= j < {mt.group(1)} ==> elaborated(#[trigger] exprs@[j], tast_exprs@[j]),\n decreases exprs.len() - {mt.group(1)},") if mt else None)(
                re.search(r"while\s+(__fk\d+)\s*<\s*exprs\.len\(\)", header))),
         Fn(file=C, name="infer_proj_expr", container="Typer", ret="r", attrs="#[verifier::loop_isolation(false)]",
            pre_rewrites=[(re.compile(r"(\w+)\.get\((\w+)\)\.cloned\(\)\.unwrap_or_else\(\|\| \{(.*?)\n(\s*)\}\);", re.S),
@@ -151,6 +149,18 @@ UNIT = Unit(
            rewrites=[VC, PUSHED],
            obligation="projection: the component's type for a tuple type that has that component; otherwise an error is reported",
            contract="ensures proj_rule_ok(tuple, index, r, old(diagnostics).errors(), final(diagnostics).errors()),"),
+        Fn(file=C, name="infer_let_expr", container="Typer", ret="r", attrs="#[verifier::loop_isolation(false)]",
+           rules=["attrs", "fmtmsg", ("strip", "tast::"), ("strip", "hir::"), "opt_map"],
+           pre_rewrites=[("annotation: &Option<hir::TypeExpr>", "annotation: &Option<HirTypeExpr>", 1), ("self.check_pat(", "self.check_pat_here(", "*")],
+           rewrites=[VC, PUSHED],
+           obligation="let: with an annotation the value is checked against it and the pattern takes that type; without, the value is inferred and the pattern takes its type; unit",
+           contract="ensures let_rule_ok(pat, *annotation, value, r, final(self).recorded()),"),
+        Fn(file=C, name="check_let_expr", container="Typer", ret="r", attrs="#[verifier::loop_isolation(false)]",
+           rules=["attrs", "fmtmsg", ("strip", "tast::"), ("strip", "hir::"), "opt_map"],
+           pre_rewrites=[("annotation: &Option<hir::TypeExpr>", "annotation: &Option<HirTypeExpr>", 1), ("self.check_pat(", "self.check_pat_here(", "*")],
+           rewrites=[VC, PUSHED],
+           obligation="let: with an annotation the value is checked against it and the pattern takes that type; without, the value is inferred and the pattern takes its type; unit",
+           contract="ensures let_rule_ok(pat, *annotation, value, r, final(self).recorded()),"),
         whole("infer_field_expr",
               "ensures r matches Expr::EField { expr: b, field_name, ty, astptr: _ } && inferred(expr, *b) && field_name@ == field.text()\n"
               "  && exists|f: TastIdent| #[trigger] final(self).recorded().contains(Constraint::StructFieldAccess { expr_ty: expr_ty(*b), field: f, result_ty: ty }) && f.0@ == field.text(),",
